@@ -7,6 +7,7 @@ import GopatchModel.Finder
 import GopatchModel.SplitPatch
 import GopatchModel.Loader
 import GopatchModel.Spec.RewriteSpec
+import GopatchModel.Spec.FinderSpec
 import GopatchModel.Intervals
 import GopatchModel.AstDiff
 import GopatchModel.Spec.RefFile
@@ -285,6 +286,10 @@ def augsOKOfVersion (v : Sec.Version) (side : List Sx) : Option Bool :=
         | .dots s _ _ => v.contents[s]? == some 46 && v.contents[s + 1]? == some 46 && v.contents[s + 2]? == some 46
         | _ => true))
 
+/-- the hypothesis of `every_elision_the_finder_reports_is_recorded_at_its_three_dots` on go/scanner's tokens of one version -/
+def scanOKOfVersion (v : Sec.Version) (side : List Sx) : Option Bool :=
+  if (Sx.field side "scanerr").length > 0 then none else some (Fnd.scanOKB v.contents (decodeFndToks side))
+
 def dotsStr (tag : String) : Option (List (Nat × Nat)) → String
   | none => s!"({tag} illformed)"
   | some ps => s!"({tag}{String.join (ps.map (fun p => s!" ({p.1} {p.2})"))})"
@@ -307,7 +312,10 @@ def handleSplit (id : String) (xs : List Sx) : String :=
   let hyps := (vs.zip sides).flatMap (fun ((m, p), (ms, ps)) => [augsOKOfVersion m ms, augsOKOfVersion p ps])
   let nok := (hyps.filter (· == some true)).length
   let nbad := (hyps.filter (· == some false)).length
-  s!"(res {id} (split{String.join splitS}) (dots{String.join dotsS}) (hyp {nok} {nbad}))"
+  let shyps := (vs.zip sides).flatMap (fun ((m, p), (ms, ps)) => [scanOKOfVersion m ms, scanOKOfVersion p ps])
+  let sok := (shyps.filter (· == some true)).length
+  let sbad := (shyps.filter (· == some false)).length
+  s!"(res {id} (split{String.join splitS}) (dots{String.join dotsS}) (hyp {nok} {nbad} {sok} {sbad}))"
 
 /-- `loadPatches`: which patch sources a run reads and in which order, or where it fails -/
 def handleLoad (id : String) (xs : List Sx) : String :=
